@@ -234,8 +234,20 @@ func (x *multiRun) do(op string) string {
 	w := strings.Fields(op)
 	x.c.begin(op)
 	out := guard(func() string {
+		// an op that names a configuration which was never declared (a shrunk replay may have lost its `rom` line)
+		idArgs := map[string][]int{"again": {1}, "manual": {1}, "sub": {1}, "pair": {1, 2}, "conc": {1, 2}, "runclose": {1}, "runcancel": {1},
+			"rundeadline": {1}, "runcancelw": {1}, "tphase": {1}, "after": {1, 3}, "serlong": {1}, "serconc": {1, 2}, "cfgs": {1}, "slowwriter": {1}}
+		for _, k := range idArgs[w[0]] {
+			if k >= len(w) {
+				return "bad-op"
+			}
+			if _, ok := mconfs[w[k]]; !ok {
+				return "no-config"
+			}
+		}
 		switch w[0] {
 		case "reset":
+			mconfs = map[string]mconf{}
 			return "ok"
 		case "rom": // rom <id> <path-or-synth:seed> <button-seed> <audio>
 			c := mconf{id: w[1], rom: w[2], seed: uint64(atoi(w[3])), audio: w[4] == "1", video: len(w) > 5 && w[5] == "1"}
